@@ -24,12 +24,12 @@ type aiVal struct {
 	tup  []aiVal
 }
 
-func aiInt(n int64) aiVal    { return aiVal{kind: "int", n: n} }
-func aiBool(b bool) aiVal    { return aiVal{kind: "bool", b: b} }
-func aiStr(s string) aiVal   { return aiVal{kind: "str", s: s} }
+func aiInt(n int64) aiVal     { return aiVal{kind: "int", n: n} }
+func aiBool(b bool) aiVal     { return aiVal{kind: "bool", b: b} }
+func aiStr(s string) aiVal    { return aiVal{kind: "str", s: s} }
 func aiSym(name string) aiVal { return aiVal{kind: "sym", s: name} }
-func aiNil() aiVal           { return aiVal{kind: "nil"} }
-func aiUnknown() aiVal       { return aiVal{kind: "unknown"} }
+func aiNil() aiVal            { return aiVal{kind: "nil"} }
+func aiUnknown() aiVal        { return aiVal{kind: "unknown"} }
 
 type aiOutcome struct {
 	kind string // "return", "stop", "opaque"
